@@ -261,6 +261,32 @@ func c10Lazy(t *rapid.T) C10Triple {
 	return C10Triple{Src: ast.BS(sb.String()), Files: []DFile{{Name: "in", Docs: []string{doc}}}}
 }
 
+// c10LiteralOrder: object and array literals whose member values have side
+// effects: the order in which they are evaluated shows in the values and the trace.
+func c10LiteralOrder(t *rapid.T) C10Triple {
+	n := rapid.IntRange(2, 9).Draw(t, "nlit")
+	keys := rapid.Permutation([]string{"a", "b", "c", "d", "e", "f", "g", "h", "k"}).Draw(t, "litkeys")[:n]
+	var sb strings.Builder
+	sb.WriteString("function tr(x) { print \"tr\", x; return x }\nBEGIN { n = 0\no = {")
+	for i, k := range keys {
+		if i > 0 {
+			sb.WriteString(", ")
+		}
+		switch rapid.IntRange(0, 3).Draw(t, "litval") {
+		case 0:
+			fmt.Fprintf(&sb, "%s: n++", k)
+		case 1:
+			fmt.Fprintf(&sb, "%s: tr(\"%s\")", k, k)
+		case 2:
+			fmt.Fprintf(&sb, "%s: (n = n * 2 + 1)", k)
+		default:
+			fmt.Fprintf(&sb, "%s: [n++, tr(n)]", k)
+		}
+	}
+	sb.WriteString("}\nprint o, n\nfor (k, v in o) print k, v\n}")
+	return C10Triple{Src: ast.BS(sb.String())}
+}
+
 func c10FromCase(c *DCase) C10Triple {
 	return C10Triple{Src: ast.BS(c.Source()), Sels: c.SelSources(), Files: c.Files}
 }
@@ -271,7 +297,10 @@ func genC10(t *rapid.T) (*C10Session, []string) {
 	var labels []string
 	intruders := map[int]bool{}
 	for k := 0; k < n; k++ {
-		switch rapid.IntRange(0, 12).Draw(t, "family") {
+		switch rapid.IntRange(0, 13).Draw(t, "family") {
+		case 13:
+			s.Triples = append(s.Triples, c10LiteralOrder(t))
+			labels = append(labels, "literal-evaluation-order", "anchor-object-order")
 		case 10:
 			s.Triples = append(s.Triples, c10Lazy(t))
 			labels = append(labels, "first-use-in-process")
@@ -346,7 +375,7 @@ func seq(n int) []int {
 
 func TestC10(t *testing.T) {
 	rec := start(t, "C10", "exploration",
-		"sessions: 2-4 (program, selectors, input) triples executed in one process, each 8 times, interleaved in a random order (A B A C B A ...). Triples come from: an anchor family (print, for-in and printf %v over objects with 2-12 keys taken from the document, a literal, auto-creation and pluck, plus method lookups of every prototype); an intruder family (assignments to method names and builtins, nested method calls, stores into string indices and members of scalars, generated 'store into the result of any read' programs paired with observer programs performing the same reads) that tries to leave state behind in the process; and the C02 / C07 / C09 / C15 / C11 generators (including runs that end in every error kind). Oracle: every execution of a triple gives byte-identical stdout, GetRootJson text and error (class, message, line, column). printf programs that succeed or fail part-way (C18 generator) next to one that always works; one-liners making the first use in a process of one kind of value or prototype method (int-origin numbers such as $index or length(), strings, arrays, objects, regexes). A sample of sessions (and every session with a first-use one-liner) is also run through the binary: three fresh processes must agree with each other and with the run inside the long-lived test process (stdout followed by the -o - JSON text, exit status). Non-trivial: the session contains a triple printing or iterating an object with >= 3 keys, or an intruder next to programs using the same prototype. distinct = distinct session.")
+		"sessions: 2-4 (program, selectors, input) triples executed in one process, each 8 times, interleaved in a random order (A B A C B A ...). Triples come from: an anchor family (print, for-in and printf %v over objects with 2-12 keys taken from the document, a literal, auto-creation and pluck, plus method lookups of every prototype); an intruder family (assignments to method names and builtins, nested method calls, stores into string indices and members of scalars, generated 'store into the result of any read' programs paired with observer programs performing the same reads) that tries to leave state behind in the process; and the C02 / C07 / C09 / C15 / C11 generators (including runs that end in every error kind). Oracle: every execution of a triple gives byte-identical stdout, GetRootJson text and error (class, message, line, column). object literals whose member values have side effects (evaluation order); printf programs that succeed or fail part-way (C18 generator) next to one that always works; one-liners making the first use in a process of one kind of value or prototype method (int-origin numbers such as $index or length(), strings, arrays, objects, regexes). A sample of sessions (and every session with a first-use one-liner) is also run through the binary: three fresh processes must agree with each other and with the run inside the long-lived test process (stdout followed by the -o - JSON text, exit status). Non-trivial: the session contains a triple printing or iterating an object with >= 3 keys, or an intruder next to programs using the same prototype. distinct = distinct session.")
 	defer rec.Finish()
 	rec.Assume("nondeterminism is detected probabilistically: a randomised order of >= 3 keys survives 8 executions with probability <= 3^-7 per case")
 	rec.Replayer("session", func(raw json.RawMessage) error {
